@@ -55,10 +55,10 @@ Lemma pay_esdts_mono ps : forall l from to l1 tok, from <> to ->
 Proof.
   induction ps as [|p r IH]; intros l from to l1 tok Hne E; cbn [pay_esdts] in E.
   - inversion E; subst. lia.
-  - destruct (transfer l from to (ep_token p) (ep_amount p)) as [l2|] eqn:T; [|discriminate].
+  - destruct (transfer l from to (ltok (ep_token p) (ep_nonce p)) (ep_amount p)) as [l2|] eqn:T; [|discriminate].
     apply IH with (tok := tok) in E; [|exact Hne].
     apply transfer_spec in T as (_ & _ & B & O); [|exact Hne].
-    destruct (bytes_dec tok (ep_token p)) as [->|ne].
+    destruct (bytes_dec tok (ltok (ep_token p) (ep_nonce p))) as [->|ne].
     + lia.
     + rewrite O in E; [exact E | congruence | congruence].
 Qed.
